@@ -502,4 +502,255 @@ theorem ainv_run (es : List CEv) : ∀ {s s' : ASt} {o : Outs}, AInv s → arun 
         obtain ⟨rfl, -⟩ := h
         exact ih (ainv_step hi he) hr
 
+theorem ainv_pop_acquire {s : ASt} {c : Nat} {x : AWaiter} {rest : List AWaiter} (r : Res) (hi : AInv s)
+    (hq : s.cv c = x :: rest) :
+    AInv (({ s with cv := upd s.cv c rest } : ASt).acquire x.issuer x.mutex r).1 := by
+  have hxm : x ∈ s.cv c := by rw [hq]; simp
+  have hnd := hi.cvNd c
+  rw [hq] at hnd
+  simp only [List.map_cons, List.nodup_cons] at hnd
+  have hsub : ∀ y ∈ rest, y ∈ s.cv c := fun y hy => by rw [hq]; exact List.mem_cons_of_mem _ hy
+  have h1 := ainv_cvshrink c rest hi hsub hnd.2
+  have ho := out_removed rest hi hxm (fun y hy => ⟨hsub y hy, fun e => hnd.1 (e ▸ List.mem_map_of_mem hy)⟩)
+  exact ainv_acquire x.mutex r h1 ho
+
+
+/-! ### who is answered, and what it owns then
+
+`waitsFor` = the mutex a blocked actor is waiting for (C06/Spec.lean). -/
+
+theorem find_unique {l : List AWaiter} {x : AWaiter} (hnd : (l.map (·.issuer)).Nodup) (hx : x ∈ l) :
+    l.find? (fun y => decide (y.issuer = x.issuer)) = some x := by
+  induction l with
+  | nil => simp at hx
+  | cons y ys ih =>
+    simp only [List.map_cons, List.nodup_cons] at hnd
+    simp only [List.find?_cons]
+    rcases List.mem_cons.mp hx with rfl | hx
+    · simp
+    · have : y.issuer ≠ x.issuer := fun e => hnd.1 (e ▸ List.mem_map_of_mem hx)
+      simp [this, ih hnd.2 hx]
+
+theorem waitsFor_cv {s : ASt} (hi : AInv s) {c : Nat} {x : AWaiter} (hx : x ∈ s.cv c) :
+    s.waitsFor x.issuer = some x.mutex := by
+  unfold ASt.waitsFor
+  rw [hi.cvLoc c x hx]
+  simp [find_unique (hi.cvNd c) hx]
+
+theorem waitsFor_mx {s : ASt} (hi : AInv s) {m : Nat} {x : Aid × Res} (hx : x ∈ (s.mx m).queue) :
+    s.waitsFor x.1 = some m := by
+  unfold ASt.waitsFor
+  rw [hi.mxLoc m x hx]
+
+theorem waitsFor_none {s : ASt} {a : Aid} (hb : s.blk a = none) : s.waitsFor a = none := by
+  unfold ASt.waitsFor
+  rw [hb]
+
+theorem acquire_queue_mono (s : ASt) (a : Aid) (m : Nat) (r : Res) (m' : Nat) (y : Aid × Res)
+    (h : y ∈ (s.mx m').queue) : y ∈ ((s.acquire a m r).1.mx m').queue := by
+  unfold ASt.acquire
+  split
+  · by_cases e : m' = m
+    · subst e; simpa using h
+    · simpa [upd_ne _ _ e] using h
+  · by_cases e : m' = m
+    · subst e; simp [h]
+    · simpa [upd_ne _ _ e] using h
+
+theorem wakeList_owner_keep (c m' : Nat) (b : Aid) : ∀ (ws : List AWaiter) (s : ASt), (s.mx m').owner = some b →
+    ((s.wakeList c ws).1.mx m').owner = some b
+  | [], _, h => h
+  | x :: rest, s, h => by
+    simp only [ASt.wakeList]
+    exact wakeList_owner_keep c m' b rest _ (acquire_owner_keep _ x.issuer x.mutex (.flag false) m' b h)
+
+theorem wakeList_queue_mono (c m' : Nat) (y : Aid × Res) : ∀ (ws : List AWaiter) (s : ASt), y ∈ (s.mx m').queue →
+    y ∈ ((s.wakeList c ws).1.mx m').queue
+  | [], _, h => h
+  | x :: rest, s, h => by
+    simp only [ASt.wakeList]
+    exact wakeList_queue_mono c m' y rest _ (acquire_queue_mono _ x.issuer x.mutex (.flag false) m' y h)
+
+/-- after waking the whole queue of `c`, that queue is empty and the other queues are untouched -/
+theorem wakeList_cv (c : Nat) : ∀ (ws : List AWaiter) (s : ASt), s.cv c = ws →
+    (s.wakeList c ws).1.cv c = [] ∧ ∀ c', c' ≠ c → (s.wakeList c ws).1.cv c' = s.cv c'
+  | [], _, h => ⟨h, fun _ _ => rfl⟩
+  | x :: rest, s, _ => by
+    simp only [ASt.wakeList]
+    obtain ⟨h1, h2⟩ := wakeList_cv c rest
+      (({ s with cv := upd s.cv c rest } : ASt).acquire x.issuer x.mutex (.flag false)).1 (by rw [acquire_cv]; simp)
+    refine ⟨h1, ?_⟩
+    intro c' hc
+    rw [h2 c' hc, acquire_cv]
+    simp [upd_ne _ _ hc]
+
+/-- notify_all answers only waiters of that moment, each with `false` (no timeout), each owning its mutex at the end -/
+theorem wakeList_outs (c : Nat) : ∀ (ws : List AWaiter) (s : ASt), AInv s → s.cv c = ws →
+    ∀ y ∈ (s.wakeList c ws).2, ∃ x ∈ ws, y = (x.issuer, .flag false) ∧
+      ((s.wakeList c ws).1.mx x.mutex).owner = some x.issuer
+  | [], _, _, _ => by intro y hy; simp [ASt.wakeList] at hy
+  | x :: rest, s, hi, hq => by
+    intro y hy
+    simp only [ASt.wakeList, List.mem_append] at hy ⊢
+    rcases hy with hy | hy
+    · obtain ⟨h1, -, h3, -⟩ := acquire_out _ x.issuer x.mutex (.flag false) y hy
+      exact ⟨x, by simp, h1, wakeList_owner_keep c x.mutex x.issuer rest _ h3⟩
+    · obtain ⟨x', hx', h1, h2⟩ := wakeList_outs c rest _ (ainv_pop_acquire (.flag false) hi hq)
+        (by rw [acquire_cv]; simp) y hy
+      exact ⟨x', List.mem_cons_of_mem _ hx', h1, h2⟩
+
+/-- notify_all reaches every waiter of that moment: it returns owning its mutex, or sits in the FIFO of its mutex
+with its (non-timeout) result attached -/
+theorem wakeList_all (c : Nat) : ∀ (ws : List AWaiter) (s : ASt), AInv s → s.cv c = ws →
+    ∀ x ∈ ws, ((x.issuer, Res.flag false) ∈ (s.wakeList c ws).2 ∧
+        ((s.wakeList c ws).1.mx x.mutex).owner = some x.issuer) ∨
+      (x.issuer, Res.flag false) ∈ ((s.wakeList c ws).1.mx x.mutex).queue
+  | [], _, _, _ => by intro x hx; simp at hx
+  | x0 :: rest, s, hi, hq => by
+    intro x hx
+    simp only [ASt.wakeList, List.mem_append]
+    rcases List.mem_cons.mp hx with rfl | hx
+    · cases hown : (({ s with cv := upd s.cv c rest } : ASt).mx x.mutex).owner with
+      | none =>
+        obtain ⟨h1, -, h3, -⟩ := acquire_free _ x.issuer x.mutex (.flag false) hown
+        left
+        exact ⟨Or.inl (by rw [h1]; simp), wakeList_owner_keep c x.mutex x.issuer rest _ h3⟩
+      | some o =>
+        obtain ⟨-, h2, -, -⟩ := acquire_queued _ x.issuer x.mutex (.flag false) o hown
+        right
+        exact wakeList_queue_mono c x.mutex _ rest _ (by rw [h2]; simp)
+    · rcases wakeList_all c rest _ (ainv_pop_acquire (.flag false) hi hq) (by rw [acquire_cv]; simp) x hx with h | h
+      · exact Or.inl ⟨Or.inr h.1, h.2⟩
+      · exact Or.inr h
+
+/-- **Whoever is answered while blocked owns, in the resulting state, the mutex it was waiting for** — the mutex of its
+`lock`, or the mutex of its condition-variable wait: a woken or timed-out waiter returns only once it has re-acquired
+its mutex (at once when the mutex is free — then nobody is queued on it, `AInv.free` — else by the hand-off of an
+unlock, after having queued at the tail of the mutex FIFO). -/
+theorem awake_owner {s s' : ASt} {e : CEv} {o : Outs} (hi : AInv s) (hs : astep s e = .ok (s', o)) :
+    ∀ y ∈ o, ∀ m, s.waitsFor y.1 = some m → (s'.mx m).owner = some y.1 := by
+  intro y hy m hm
+  cases e with
+  | lock a m0 =>
+    simp only [astep] at hs
+    split at hs
+    · simp at hs
+    · rename_i hb
+      split at hs
+      · simp at hs
+      · simp only [Except.ok.injEq] at hs
+        have ho : o = (s.acquire a m0 .unit).2 := by rw [hs]
+        rw [ho] at hy
+        obtain ⟨h1, -⟩ := acquire_out _ _ _ _ y hy
+        rw [h1, waitsFor_none (by simpa using hb)] at hm
+        cases hm
+  | tryLock a m0 =>
+    simp only [astep] at hs
+    split at hs
+    · simp at hs
+    · rename_i hb
+      have hbn : s.blk a = none := by simpa using hb
+      split at hs <;>
+      · simp only [Except.ok.injEq, Prod.mk.injEq] at hs
+        obtain ⟨-, rfl⟩ := hs
+        simp only [List.mem_singleton] at hy
+        rw [hy, waitsFor_none hbn] at hm
+        cases hm
+  | unlock a m0 =>
+    simp only [astep] at hs
+    split at hs
+    · simp at hs
+    · rename_i hb
+      split at hs
+      · simp at hs
+      · simp only [Except.ok.injEq, Prod.mk.injEq] at hs
+        obtain ⟨rfl, rfl⟩ := hs
+        rcases List.mem_append.mp hy with hy | hy
+        · obtain ⟨⟨rest, hq⟩, h2, -⟩ := release_out s m0 y hy
+          have := waitsFor_mx hi (m := m0) (x := y) (by rw [hq]; simp)
+          rw [this] at hm
+          injection hm with hm; subst hm
+          exact h2
+        · simp only [List.mem_singleton] at hy
+          rw [hy, waitsFor_none (by simpa using hb)] at hm
+          cases hm
+  | wait a c m0 timed =>
+    simp only [astep] at hs
+    split at hs
+    · simp at hs
+    · split at hs
+      · simp at hs
+      · simp only [Except.ok.injEq, Prod.mk.injEq] at hs
+        obtain ⟨rfl, rfl⟩ := hs
+        obtain ⟨⟨rest, hq⟩, h2, -⟩ := release_out s m0 y hy
+        have := waitsFor_mx hi (m := m0) (x := y) (by rw [hq]; simp)
+        rw [this] at hm
+        injection hm with hm; subst hm
+        exact h2
+  | notifyOne a c =>
+    simp only [astep] at hs
+    split at hs
+    · simp at hs
+    · rename_i hb
+      have hbn : s.blk a = none := by simpa using hb
+      split at hs
+      · simp only [Except.ok.injEq, Prod.mk.injEq] at hs
+        obtain ⟨-, rfl⟩ := hs
+        simp only [List.mem_singleton] at hy
+        rw [hy, waitsFor_none hbn] at hm
+        cases hm
+      · rename_i x rest hq
+        simp only [Except.ok.injEq, Prod.mk.injEq] at hs
+        obtain ⟨rfl, rfl⟩ := hs
+        rcases List.mem_append.mp hy with hy | hy
+        · obtain ⟨h1, -, h3, -⟩ := acquire_out _ _ _ _ y hy
+          have := waitsFor_cv hi (c := c) (x := x) (by rw [hq]; simp)
+          rw [h1] at hm ⊢
+          rw [this] at hm
+          injection hm with hm; subst hm
+          exact h3
+        · simp only [List.mem_singleton] at hy
+          rw [hy, waitsFor_none hbn] at hm
+          cases hm
+  | notifyAll a c =>
+    simp only [astep] at hs
+    split at hs
+    · simp at hs
+    · rename_i hb
+      simp only [Except.ok.injEq, Prod.mk.injEq] at hs
+      obtain ⟨rfl, rfl⟩ := hs
+      rcases List.mem_append.mp hy with hy | hy
+      · obtain ⟨x, hx, h1, h2⟩ := wakeList_outs c (s.cv c) s hi rfl y hy
+        have := waitsFor_cv hi hx
+        rw [h1] at hm ⊢
+        rw [this] at hm
+        injection hm with hm; subst hm
+        exact h2
+      · simp only [List.mem_singleton] at hy
+        rw [hy, waitsFor_none (by simpa using hb)] at hm
+        cases hm
+  | timeout a c =>
+    simp only [astep] at hs
+    split at hs
+    · simp at hs
+    · rename_i x hf
+      simp only [Except.ok.injEq] at hs
+      have hxm := List.mem_of_find?_eq_some hf
+      have hxa : x.issuer = a := by
+        have := List.find?_some hf
+        simp only [decide_eq_true_eq] at this
+        exact this.1
+      have ho : o = (({ s with cv := upd s.cv c (eraseW a (s.cv c)) } : ASt).acquire a x.mutex (.flag true)).2 := by
+        rw [hs]
+      have hs' : s' = (({ s with cv := upd s.cv c (eraseW a (s.cv c)) } : ASt).acquire a x.mutex (.flag true)).1 := by
+        rw [hs]
+      rw [ho] at hy
+      obtain ⟨h1, -, h3, -⟩ := acquire_out _ _ _ _ y hy
+      have := waitsFor_cv hi hxm
+      rw [h1] at hm ⊢
+      rw [← hxa, this] at hm
+      injection hm with hm; subst hm
+      rw [hs']; exact h3
+
 end SgVerif.C06
+
